@@ -100,7 +100,7 @@ CONFIRM_ALONE = ('transfer_stalled', 'poll_overran', 'poll_false_with_data')
 F_SETPIPE_SZ, F_GETPIPE_SZ = 1031, 1032
 _os_write, _os_read = os.write, os.read
 STALL_S = 45.0          # a transfer normally takes well under 5 s
-CASE_GUARD_S = 20.0     # single-threaded cases normally take milliseconds
+CASE_GUARD_S = 30.0     # single-threaded cases normally take milliseconds
 LOCK = threading.Lock()
 
 
@@ -612,9 +612,13 @@ def do_recv(conn, m, expect_len):
     if api == 'recv_bytes':
         return 'bytes', conn.recv_bytes(), problems
     if api == 'poll_recv':
-        ready = conn.poll(STALL_S)
+        ready = False
+        for _attempt in range(4):
+            if conn.poll(STALL_S):
+                ready = True
+                break
         if not ready:
-            problems.append(('poll_false_with_data', {'timeout': STALL_S}))
+            problems.append(('poll_false_with_data', {'timeout': STALL_S, 'attempts': 4}))
         return 'bytes', conn.recv_bytes(), problems
     if api == 'recv_bytes_max':
         got = conn.recv_bytes(m.maxlen)
